@@ -5,7 +5,7 @@
 From Coq Require Import ZArith List Bool Lia.
 Import ListNotations.
 Require Import Nib.C03.Model Nib.C03.Ref.
-Open Scope Z_scope.
+Local Open Scope Z_scope.
 
 (** * 1. usage protocol (Prop) — stated on the REFERENCE state only *)
 
